@@ -13,7 +13,7 @@ from fractions import Fraction
 
 import numpy as np
 
-from vlib import core
+from vlib import core, params_corr
 from vlib.core import q, unq
 
 PROPERTY = "C06"
@@ -38,8 +38,26 @@ SERIES_THEOREMS = [
     "Atomica.C06.previous_prefix",
     "Atomica.C06.previous_prefix_needs_point",
 ]
-LEAN_MODS = list(SERIES_LEAN_MODS)
-THEOREMS = list(SERIES_THEOREMS)
+PIPE_LEAN_MODS = ["AtomicaProofs.Properties.C06Params"]
+PIPE_THEOREMS = [
+    "Atomica.C06.precedence_program",
+    "Atomica.C06.precedence_function",
+    "Atomica.C06.precedence_data",
+    "Atomica.C06.precedence_skip",
+    "Atomica.C06.precedence_aggregation",
+    "Atomica.C06.data_scaled",
+    "Atomica.C06.clip_before_use",
+    "Atomica.C06.clipV_idem",
+    "Atomica.C06.evalStep_frame",
+    "Atomica.C06.evalStep_fixpoint",
+    "Atomica.C06.evalStep_function_fixpoint",
+    "Atomica.C06.evalStep_clipped",
+    "Atomica.C06.current_eq_spec",
+    "Atomica.C06.current_precompute_skip_nan",
+    "Atomica.C06.current_ne_spec",
+]
+LEAN_MODS = list(SERIES_LEAN_MODS) + PIPE_LEAN_MODS
+THEOREMS = list(SERIES_THEOREMS) + PIPE_THEOREMS
 
 TRUSTED = [
     "float rounding inside numpy.interp (slope*(x-xp[j])+fp[j]) compared with the exact chord to 1e-11 * max(|v_j|,|v_j+1|); values at entered years, outside the range, single-point and assumption-only series are compared exactly",
@@ -61,6 +79,25 @@ EXPECTED_BRANCHES = [
     "series.all_nan_error", "series.assumption_ignored", "query.knot", "query.between", "query.left", "query.right",
     "method.linear", "method.previous", "via.parameter", "via.timeseries",
     "insert.new", "insert.overwrite", "insert.nan_value", "prefix.hyp_held", "prefix.hyp_fails_changed",
+]
+
+PIPE_RULE = (
+    " | pipeline: cases = (processed model, parameter, population), every time index compared; generated frameworks with dependency chains/diamonds, "
+    "precompute / dynamic / output-only functions, SRC/TGT_POP_AVG/SUM aggregations (no / interaction / compartment / characteristic / parameter weights), limits, "
+    "calibration factors, parameter scenarios (skip windows), with and without generated program sets; demos udt, tb_simple (hiv, tb thorough); "
+    "non-trivial = set at some index by a function, program, aggregation or skip window, calibration factor != 1, or clipped at a limit"
+)
+RULE = RULE + PIPE_RULE
+EXPECTED_BRANCHES += [
+    "stage.data", "stage.data.transfer", "stage.function.dynamic", "stage.function.precompute", "stage.function.postcompute", "stage.aggregation",
+    "stage.skip.dynamic", "stage.skip.precompute", "stage.skip.postcompute", "stage.program.number", "stage.program.pertime", "stage.program.other",
+    "clip.at_limit", "clip.function_value", "clip.program_value", "order.topological.dynamic_pars", "order.topological.all_pars", "run.generated", "run.directed",
+]
+TRUSTED += [
+    "pipeline half: the value of a parameter function on given dependency values and the interpolated databook value are oracle inputs (implementation's parsed function / ParameterSet.interpolate evaluated by the harness on the finished arrays); only their placement in the pipeline, the calibration factors and the clip are modelled",
+]
+ASSUMPTIONS += [
+    "derivative parameters (Euler state) are excluded from the pipeline comparison and from the fixpoint statement (counted)",
 ]
 
 NAN = float("nan")
@@ -502,10 +539,13 @@ def run_insert(ctx, specs):
 
 def run(ctx):
     run_series(ctx)
+    params_corr.run_params(ctx, PROPERTY)
 
 
 def replay(ctx, data):
     rp = data["replay"]
+    if rp.get("kind") in ("generated", "demo", "spec"):
+        return params_corr.replay_params(ctx, PROPERTY, data)
     spec = rp["spec"]
     ts = build(spec)
     print("spec:", spec)
